@@ -1,6 +1,7 @@
 """C16 Request ids are unique per connection under concurrent use."""
 import collections
 import dis
+import http.client
 import io
 import logging
 import random
@@ -129,6 +130,9 @@ class Opener:
     def open(self, request):
         with self.lock:
             self.reqs.append((threading.get_ident(), request))
+        if request.full_url.endswith("/dropped"):
+            # the server takes the request and closes the connection without an answer
+            raise http.client.RemoteDisconnected("Remote end closed connection without response")
         if request.full_url.endswith("/unreachable"):
             # the server is not reached at all: the number is used up all the same
             raise urllib.error.URLError("no route to host")
@@ -360,7 +364,9 @@ def mk_conns():
         d4.add_adapter(IdAdapter(op.adapter_ids))
     d5 = CallerConn(Caller16(base).clone(conn_http.BAuthConn.Adapter("u", "p")))
     d6 = conn_http.HttpConn(d1, adapters=[ReplacingIdAdapter(op.adapter_ids)])
-    return op, [base, d1, d2, d3, d4, d5, d6]
+    # (a clone of a method caller made without any adapter of its own - clone(), clone(None), clone([]))
+    d7 = CallerConn(Caller16(base).clone(*([], [None], [[]])[_MK[0] % 3]))
+    return op, [base, d1, d2, d3, d4, d5, d6, d7]
 
 
 def codes():
@@ -426,7 +432,7 @@ def first_requests_race(ctx, seed, rounds):
 
 
 def uses_id_adapter(thread_index):
-    return thread_index % 7 in (4, 6)      # the connections of mk_conns() whose adapters supply ids
+    return thread_index % 8 in (4, 6)      # the connections of mk_conns() whose adapters supply ids
 
 
 def stress_round(ctx, seed, interleavings, case_no):
@@ -455,6 +461,7 @@ def stress_round(ctx, seed, interleavings, case_no):
     errors = []
     described = []
     refused = []
+    dropped = []
     http_logger = logging.getLogger(conn_http.__name__)
     old_level = http_logger.level
     if case_no % 4 == 3:
@@ -490,10 +497,14 @@ def stress_round(ctx, seed, interleavings, case_no):
                 if k % 10 == 3 and not uses_id_adapter(i):
                     own_id = own_id_for(i, k)
                     # (the caller's headers may be a case-insensitive container, the key spelled in lower case)
-                    verb("/p", headers=(CIDict({'x-request-id': own_id}) if k % 40 == 3 else
-                                        HeaderBag([('X-Request-ID', own_id), ('X-Worker', str(i))]) if k % 40 == 13 else
-                                        {'X-Request-ID': own_id}),
-                         **kw)
+                    try:
+                        verb("/dropped" if k % 40 == 33 and 'params' not in kw else "/p",
+                             headers=(CIDict({'x-request-id': own_id}) if k % 40 == 3 else
+                                      HeaderBag([('X-Request-ID', own_id), ('X-Worker', str(i))]) if k % 40 == 13 else
+                                      {'X-Request-ID': own_id}),
+                             **kw)
+                    except http.client.RemoteDisconnected:
+                        dropped.append(1)       # (the caller is told; what was sent was sent once, with the caller's id)
                 elif k % 10 == 2:
                     # headers in a mapping that never raises KeyError (no id of the caller's in it)
                     verb("/p", headers=collections.defaultdict(str, {'X-Worker': str(i)}), **kw)
@@ -548,6 +559,7 @@ def stress_round(ctx, seed, interleavings, case_no):
     ctx.count("yields_injected", injected[0])
     ctx.count("connections_described_between_requests", len(described))
     ctx.count("calls_refused_before_anything_was_sent", len(refused))
+    ctx.count("requests_whose_connection_was_dropped_by_the_server", len(dropped))
     through_id_adapters = sum(n_req for i in range(n_threads) if uses_id_adapter(i))
     ctx.count("requests_through_connections_whose_adapter_supplies_the_id", through_id_adapters)
     if len(op.adapter_ids) != through_id_adapters:
